@@ -207,6 +207,15 @@ def run_type(ai, tname, slot, log=None):
         roots.extend(ai.roots_runs[mark:])
         if so is None:
             continue
+        # the constructor's success variant carries the facts of its exit class (e.g. dict_size != 0)
+        if isinstance(rv, EnumV) and rv.name in ("std::result::Result", "std::option::Option"):
+            vi = 0 if rv.name == "std::result::Result" else 1
+            dead = False
+            for g in getattr(rv, "guards", {}).get(vi, ()):
+                if not so.assume(g):
+                    dead = True
+            if dead:
+                continue
         absorb(payload_of(rv, tname), so, c.name)
     if inv is None:
         return roots
